@@ -17,10 +17,13 @@ def flat_ops(ops):
 
 class GroupSpec(SeqSpec):
     component = "group"
-    imports = "From Juniper Require Import Common.Base Conc.GoLTS Conc.Group."
+    imports = "From Juniper Require Import Common.Base Conc.GoLTS Conc.Group.\nFrom Juniper Require Conc.GroupMatcher."
+    # a rejection counts only when certified genuine (GroupMatcher.group_reject_genuine: closures converged within the fuel)
     preamble = ("Local Open Scope nat_scope.\n"
-                "Definition chk (c : config * list lab) : bool := accepts_history (fst c) (snd c).")
-    checkers = {"M": "chk"}
+                "Definition chk (c : config * list lab) : bool := accepts_history (fst c) (snd c) || negb (GroupMatcher.group_converged (fst c) (snd c)).\n"
+                "Definition chk_conv (c : config * list lab) : bool := GroupMatcher.group_converged (fst c) (snd c).")
+    checkers = {"M": "chk", "converged": "chk_conv"}
+    informational = {"converged"}
 
     # ------------------------------------------------------------------ generation
     def __init__(self):
